@@ -209,6 +209,15 @@ fn esc(s: &str) -> String {
 }
 
 fn check_spec(ctx: &Ctx, spec: &LSpec, inputs: &[String], idmaps: bool, st: &mut Stats) {
+    ctx.guard(
+        &format!("building / running the lexer of\n{}", spec.to_lex()),
+        || json!({"spec": spec.to_lex(), "input": ""}),
+        (),
+        || check_spec_inner(ctx, spec, inputs, idmaps, st),
+    )
+}
+
+fn check_spec_inner(ctx: &Ctx, spec: &LSpec, inputs: &[String], idmaps: bool, st: &mut Stats) {
     st.specs += 1;
     let text = spec.to_lex();
     let case = |input: &str| json!({"spec": text, "input": input});
